@@ -11,7 +11,9 @@ Two families of shapes:
              leaves i=int, e=E, plus a second argument --w: List[int] (so that a failure in --w happens after --v
              has been processed and vice versa);
   * named    hand-written parsers (dataclasses, class-typed arguments, signature defaults, groups, subcommands,
-             paths, environment, default config files, classic nargs/choices actions, Any, links).
+             paths, environment, default config files, classic nargs/choices actions, Any, links, and every kind
+             of argument that is NOT type-hint based: plain store actions with a converter and nargs, append,
+             ActionJsonSchema, ActionJsonnet, ActionParser, ActionYesNo - with raw-form and final-form defaults).
 """
 from __future__ import annotations
 
